@@ -21,6 +21,7 @@ func TestVerif_C12_Storage(t *testing.T) {
 	r := kit.NewResult(t, "c12-storage", seed,
 		"generated worlds (<=6 namespaces on <=3 levels, some with their own shamir seal; sibling, multi-segment and equally named mounts of the recording backend / kv / auth type; remounts inside and across namespaces, unmount + re-use of the path, seal/unseal cycles) serving a request mix of hostile storage calls made by a backend on its req.Storage (.., absolute, //, encoded, other mounts' uuids and real keys, core keys, long), hostile data paths, kv, login, cubbyhole and foreign-token requests in every namespace spelling (header / path / split); every physical operation of a request is classified against the storage prefixes read from the running router and every response is scanned for data or names written through another mount; a request is non-trivial when its client-chosen key resolves outside the mount prefix, when it is served while a namespace is sealed, when it uses a token of another namespace, or when it follows a remount / path re-use")
 	defer r.Write(t)
+	r.Note("observation outside C12: a remount into another namespace (Core.moveStorage) does not terminate, holding mountsLock, when the mount's storage holds a key with an empty path segment (a//b, /a, a/), because listed names are re-joined with path.Join; the workload therefore moves only mounts that never stored such a key across namespaces")
 	topos := kit.N(4, 40)
 	reqs := kit.N(500, 2000)
 	for ti := 0; ti < topos; ti++ {
@@ -155,6 +156,19 @@ func c12Depth(n *c12NS) int {
 	return n.Depth
 }
 
+// keepMovable: every second mount is never made to STORE a key with an empty
+// path segment (//, leading or trailing slash; such keys are still read, listed
+// and deleted through it and stored through the other mounts). Reason, outside
+// C12: Core.moveStorage (remount into another namespace) joins listed names
+// with path.Join, which folds the empty segment away, lists the same directory
+// again and never terminates while holding mountsLock. Mounts that hold such a
+// key are therefore only remounted inside their namespace.
+func (s *c12StorageRun) keepMovable(M *c12Mount) bool {
+	var n int
+	fmt.Sscanf(M.Tag, "c12m%dx", &n)
+	return n%2 == 0
+}
+
 // raw: the hostile backend executes a client-chosen storage call.
 func (s *c12StorageRun) raw() {
 	ms := s.liveMounts(c12Rec)
@@ -165,6 +179,10 @@ func (s *c12StorageRun) raw() {
 	call := []string{"get", "get", "put", "put", "delete", "list", "list", "listpage"}[s.rng.Intn(8)]
 	ks := s.hostileKeys(M, call == "put")
 	k := ks[s.rng.Intn(len(ks))]
+	if call == "put" && c12OddKey(k.Key) && s.keepMovable(M) {
+		// see keepMovable: this mount is kept free of keys with empty segments
+		k = ks[0]
+	}
 	q := &c12Req{Kind: "raw", Op: logical.UpdateOperation, Tok: s.pickTokFor(M.NS), N: M.NS, M: M, Marker: M.Tag, RawCall: call, RawKey: k.Key, KeyKind: k.Kind}
 	q.Data = map[string]any{"call": call, "key": k.Key}
 	canary := ""
@@ -210,6 +228,9 @@ func (s *c12StorageRun) raw() {
 		if call == "put" {
 			s.canary[canary] = c12Owner{Mount: M}
 			M.Keys = append(M.Keys, k.Key)
+			if c12OddKey(k.Key) {
+				M.Odd = true
+			}
 		}
 		if k.Kind != "plain" && k.Kind != "plain-existing" {
 			s.nontrivial(q, "odd-key-inside")
@@ -233,6 +254,9 @@ func (s *c12StorageRun) data() {
 	ps := s.hostileDataPaths(M)
 	p := ps[s.rng.Intn(len(ps))]
 	op := []logical.Operation{logical.UpdateOperation, logical.UpdateOperation, logical.ReadOperation, logical.ReadOperation, logical.ListOperation, logical.DeleteOperation}[s.rng.Intn(6)]
+	if op == logical.UpdateOperation && c12OddKey(p.Key) && s.keepMovable(M) {
+		p = ps[0]
+	}
 	path := p.Key
 	if (op == logical.ReadOperation || op == logical.DeleteOperation) && len(M.Data) > 0 && s.rng.Chance(1, 2) {
 		path = M.Data[s.rng.Intn(len(M.Data))]
@@ -263,6 +287,9 @@ func (s *c12StorageRun) data() {
 	if op == logical.UpdateOperation && handled {
 		s.canary[canary] = c12Owner{Mount: M}
 		M.Data = append(M.Data, path)
+		if c12OddKey(path) {
+			M.Odd = true
+		}
 	}
 	if s.afterMut > 0 {
 		s.nontrivial(q, "after-mutation")
@@ -547,7 +574,7 @@ func (s *c12StorageRun) mutate() {
 		}
 		m := user[s.rng.Intn(len(user))]
 		dst := m.NS
-		if s.rng.Chance(1, 2) {
+		if s.rng.Chance(1, 2) && !m.Odd {
 			dst = open[s.rng.Intn(len(open))]
 		}
 		to := fmt.Sprintf("moved%d/", s.rng.Intn(4))
